@@ -48,29 +48,32 @@ type Injected struct {
 
 // Scenario is a complete, seed-determined description of one closed-loop run.
 type Scenario struct {
-	Kind        string     `json:"kind"`     // deployment | cloneset
-	Style       string     `json:"style"`    // canary | partition | bluegreen
-	Provider    string     `json:"provider"` // none | ingress:<class> | gateway | custom | ingress+gateway
-	Replicas    int32      `json:"replicas"`
-	Steps       []Step     `json:"steps"`
-	RolloutID   bool       `json:"rolloutID,omitempty"`
+	Kind      string `json:"kind"`     // deployment | cloneset
+	Style     string `json:"style"`    // canary | partition | bluegreen
+	Provider  string `json:"provider"` // none | ingress:<class> | gateway | custom | ingress+gateway
+	Replicas  int32  `json:"replicas"`
+	Steps     []Step `json:"steps"`
+	RolloutID bool   `json:"rolloutID,omitempty"`
+	// HPA: the user runs a HorizontalPodAutoscaler (min = max = replicas, so it never scales) on the workload; blue-green
+	// releases park it on a non-existent target and must bring it back.
+	HPA bool `json:"hpa,omitempty"`
 	// PartitionLimit is the operator flag --partition-percent-limit (0 = its default, 50): the largest replicas
 	// percentage of a partition-style step that may also configure traffic.
 	PartitionLimit int `json:"partitionLimit,omitempty"`
 	// RollbackInBatch sets the rollouts.kruise.io/rollback-in-batch annotation: a rollback walks the plan again
 	// instead of cancelling (CloneSet without traffic routing only).
-	RollbackInBatch bool `json:"rollbackInBatch,omitempty"`
-	NoCanarySvc bool       `json:"disableGenerateCanaryService,omitempty"`
-	Events      []Injected `json:"events,omitempty"`
-	Pre         []string   `json:"pre,omitempty"` // user actions performed after setup, before the release
-	Profile     string     `json:"profile"`       // uniform | ctrl-eager | env-eager | user-eager
-	Seed        int64      `json:"seed"`
-	ApproveLag  int        `json:"approveLag"` // actions to wait before approving a paused step
-	MaxSurge    string     `json:"maxSurge,omitempty"`
-	MaxUnavail  string     `json:"maxUnavailable,omitempty"`
-	NS          string     `json:"ns"`
-	Name        string     `json:"name"` // workload name; rollout = name+"-ro", service = name+"-svc"
-	Grace       int32      `json:"grace"`
+	RollbackInBatch bool       `json:"rollbackInBatch,omitempty"`
+	NoCanarySvc     bool       `json:"disableGenerateCanaryService,omitempty"`
+	Events          []Injected `json:"events,omitempty"`
+	Pre             []string   `json:"pre,omitempty"` // user actions performed after setup, before the release
+	Profile         string     `json:"profile"`       // uniform | ctrl-eager | env-eager | user-eager
+	Seed            int64      `json:"seed"`
+	ApproveLag      int        `json:"approveLag"` // actions to wait before approving a paused step
+	MaxSurge        string     `json:"maxSurge,omitempty"`
+	MaxUnavail      string     `json:"maxUnavailable,omitempty"`
+	NS              string     `json:"ns"`
+	Name            string     `json:"name"` // workload name; rollout = name+"-ro", service = name+"-svc"
+	Grace           int32      `json:"grace"`
 }
 
 func (s *Scenario) String() string {
@@ -120,6 +123,9 @@ func (s *Scenario) Sig() string {
 	}
 	if s.PartitionLimit > 0 {
 		ev = append(ev, fmt.Sprintf("partition-limit=%d", s.PartitionLimit))
+	}
+	if s.HPA {
+		ev = append(ev, "hpa")
 	}
 	return fmt.Sprintf("%s/%s/%s/%s/%s", s.Kind, s.Style, s.Provider, shape, strings.Join(ev, ","))
 }
@@ -247,6 +253,20 @@ func (s *Scenario) Install(w *World) error {
 		}
 	default:
 		if err := s.installOtherWorkload(w); err != nil {
+			return err
+		}
+	}
+	if s.HPA {
+		ref := map[string]interface{}{"apiVersion": "apps/v1", "kind": "Deployment", "name": s.Name}
+		if s.Kind == "cloneset" {
+			ref["apiVersion"], ref["kind"] = "apps.kruise.io/v1alpha1", "CloneSet"
+		}
+		hpa := &unstructured.Unstructured{Object: map[string]interface{}{
+			"apiVersion": "autoscaling/v2", "kind": "HorizontalPodAutoscaler",
+			"metadata": map[string]interface{}{"name": s.Name + "-hpa", "namespace": s.NS},
+			"spec":     map[string]interface{}{"scaleTargetRef": ref, "minReplicas": int64(s.Replicas), "maxReplicas": int64(s.Replicas)},
+		}}
+		if err := user.Create(c, hpa); err != nil {
 			return err
 		}
 	}
@@ -392,6 +412,7 @@ func GenScenario(rng *rand.Rand, family string) *Scenario {
 	s.Provider = provs[rng.Intn(len(provs))]
 	s.Profile = []string{"uniform", "ctrl-eager", "env-eager", "uniform"}[rng.Intn(4)]
 	s.RolloutID = rng.Intn(3) == 0
+	s.HPA = s.Style == "bluegreen" && rng.Intn(2) == 0
 	s.ApproveLag = rng.Intn(6)
 	n := 1 + rng.Intn(4)
 	percent := rng.Intn(2) == 0
